@@ -168,7 +168,7 @@ def read (cv : Int → Option Int) (h : Heap) (src : Buf) (dst : List Int) : Res
 def stripedVal (cv : Int → Option Int) (col : List Int) (i : Nat) : Option Int :=
   if i < col.length then cv (col.getD i 0) else some 0
 
-/-- one channel of `WriteStriped`: `for i < written { SetSample(BufferIndex(c,i), i < len(src[c]) ? D(src[c][i]) : 0) }` -/
+/-- one channel of `WriteStriped`: `for i < min(written, channelLength(c)) { SetSample(BufferIndex(c,i), i < len(src[c]) ? D(src[c][i]) : 0) }` -/
 def wsChan (cv : Int → Option Int) (dst : Buf) (c : Nat) (col : List Int) : List Nat → Heap → Res Unit
   | [], h => .ok h ()
   | i :: is, h =>
@@ -179,10 +179,16 @@ def wsChan (cv : Int → Option Int) (dst : Buf) (c : Nat) (col : List Int) : Li
       | none => .panic h .index
       | some h' => wsChan cv dst c col is h'
 
+/-- `Buffer.channelLength(c)`: the number of samples the buffer holds for channel `c` - one less than
+`Length` for the channels missing in a partially filled last frame -/
+def Buf.chanLen (b : Buf) (c : Nat) : Nat :=
+  if b.len % b.ch ≠ 0 ∧ b.len % b.ch ≤ c then b.length - 1 else b.length
+
 def wsChans (cv : Int → Option Int) (dst : Buf) (written : Nat) : Nat → List (List Int) → Heap → Res Unit
   | _, [], h => .ok h ()
   | c, col :: cols, h =>
-    (wsChan cv dst c col (List.range written) h).bind fun h' _ => wsChans cv dst written (c + 1) cols h'
+    (wsChan cv dst c col (List.range (min written (dst.chanLen c))) h).bind fun h' _ =>
+      wsChans cv dst written (c + 1) cols h'
 
 /-- `WriteStriped(src [][]S, dst)` -/
 def writeStriped (cv : Int → Option Int) (h : Heap) (src : List (List Int)) (dst : Buf) : Res Nat :=
@@ -194,7 +200,7 @@ def writeStriped (cv : Int → Option Int) (h : Heap) (src : List (List Int)) (d
 
 /-- one channel of `ReadStriped`; returns the caller's slice for that channel -/
 def rsChan (cv : Int → Option Int) (h : Heap) (src : Buf) (c : Nat) (col : List Int) : Option (Option (List Int)) :=
-  let m := min col.length src.length
+  let m := min col.length (src.chanLen c)
   -- outer none = index panic, inner none = unspecified conversion
   match (List.range m).mapM (fun (i : Nat) => src.sample h (bufferIndex src.ch (c : Int) (i : Int))) with
   | none => none
@@ -208,12 +214,15 @@ def rsChans (cv : Int → Option Int) (h : Heap) (src : Buf) : Nat → List (Lis
     | some none => .unspec
     | some (some col') => (rsChans cv h src (c + 1) cols).bind fun h' rest => .ok h' (col' :: rest)
 
+/-- the count `ReadStriped` returns: the largest number of samples read for one channel -/
+def rsCount (src : Buf) : Nat → List (List Int) → Nat
+  | _, [] => 0
+  | c, col :: cols => max (min col.length (src.chanLen c)) (rsCount src (c + 1) cols)
+
 /-- `ReadStriped(src, dst [][]D)` -/
 def readStriped (cv : Int → Option Int) (h : Heap) (src : Buf) (dst : List (List Int)) : Res (List (List Int) × Nat) :=
   if src.ch ≠ dst.length then .panic h .diffChannels
-  else
-    let rd := dst.foldl (fun m col => max m (min col.length src.length)) 0
-    (rsChans cv h src 0 dst).bind fun h' cols => .ok h' (cols, rd)
+  else (rsChans cv h src 0 dst).bind fun h' cols => .ok h' (cols, rsCount src 0 dst)
 
 /-! ## the conversion skeleton shared by the nine `XAsY` functions -/
 
